@@ -16,6 +16,7 @@ import (
 	"os"
 	"strconv"
 	"testing"
+	"time"
 )
 
 type draw struct {
@@ -207,6 +208,23 @@ func Run(body func()) (crashed bool) {
 	}()
 	body()
 	return false
+}
+
+// UntilBlocked runs f until it returns or would block forever on a channel
+// operation (sequential engine: reported as blocked=true). Natively f runs in
+// a goroutine and is abandoned after it has been idle for a moment.
+func UntilBlocked(f func()) (blocked bool) {
+	done := make(chan struct{})
+	go func() {
+		defer close(done)
+		f()
+	}()
+	select {
+	case <-done:
+		return false
+	case <-time.After(2500 * time.Millisecond):
+		return true
+	}
 }
 
 // ExpectPanic runs body, which may panic; it reports whether it did.
